@@ -575,7 +575,7 @@ def dynamic_graph_checks(ctx, case, r, facts, funcmap, rcase, sig):
                       broken="translator obligation (justified trace), harness/translate_effects.py call graph")
     # dynamic edges
     touched_all = set(range(1, len(gi.kind) + 1))
-    n_static = n_dyn_only = 0
+    n_static = n_dyn_only = n_proto = 0
     examples = []
     for fa, la, fb, lb in r.get("dyn_edges") or []:
         u, v = funcmap(fa, la), funcmap(fb, lb)
@@ -583,11 +583,14 @@ def dynamic_graph_checks(ctx, case, r, facts, funcmap, rcase, sig):
             continue
         if one_step(gi, u, v, touched_all):
             n_static += 1
+        elif gi.name[v - 1].rsplit(".", 1)[-1].startswith("__") and gi.name[v - 1].endswith("__"):
+            n_proto += 1      # len(x) / x() / x[k] / with x: protocol methods are edges class -> dunder, not caller -> dunder
         else:
             n_dyn_only += 1
             if len(examples) < 4:
                 examples.append("%s -> %s" % (gi.name[u - 1].replace("syne_tune.", ""), gi.name[v - 1].replace("syne_tune.", "")))
     ctx.h("dynamic_edges", "caller->callee pairs with a static counterpart", n_static)
+    ctx.h("dynamic_edges", "implicit protocol calls (__len__, __call__, ...: covered by class -> dunder edges)", n_proto)
     ctx.h("dynamic_edges", "pairs without one (callable created elsewhere / passed as value)", n_dyn_only)
     if examples:
         facts.setdefault("_dyn_examples", set()).update(examples)
